@@ -113,6 +113,13 @@ def run(ctx):
         ctx.ob(rule, fn, "fetch_max-of-highest-seqno-plus-1", okr and ok1,
                "supervisor.seqno.fetch_max(get_highest_seqno().map(|x| x + 1))" if okr and ok1 else "seqno restore is not fetch_max(highest seqno + 1) on the database generator: recv=%s arg=%s" % (A.tstr(recv)[-60:], A.tstr(og.of_operand(t["args"][1]))[:120]))
         if fid == "db::Database::recover":
+            # the restores run when an active journal EXISTED (the normal reopen), not only / not instead when it was just created
+            pr_ = A.prune_edges(fn, assume_field={"was_active_created": False})
+            live_ = A.reach(fn, [0], pruned=pr_)
+            okw = b in live_ and (not jfm or jfm[0] in live_)
+            ctx.ob(rule, fn, "restores-run-on-a-normal-reopen", okw,
+                   "with was_active_created = false (an active journal was found) the journal replay and the table-seqno restore are reachable" if okw else
+                   "with was_active_created = false — every normal reopen — the seqno restore (journal replay / per-keyspace tables) is not reachable: the generator restarts below recovered sequence numbers")
             # every iteration of the loop over keyspaces.values() passes the fetch_max
             heads = [bb for bb, tt in fn.calls() if A.cname(tt).endswith("::next") and "hash_map::Values" in (tt.get("full") or "") and A.in_cycle(fn, bb) and b in A.reach_after(fn, bb)]
             heads = [h for h in heads if h in A.reach_after(fn, b)]
